@@ -39,7 +39,8 @@ Theorem C14_uncovered :
 Proof. exact uncovered. Qed.
 Print Assumptions C14_uncovered.
 
-(* validation accepts exactly the configurations without two claims on one (S-VLAN, selector) *)
+(* the collision scan passes exactly the configurations without two claims on one (S-VLAN, selector); together with
+   C14_strict_accepts_iff / C14_strict_agrees below this is ValidateMatchIndex's verdict *)
 Theorem C14_validate_accepts_iff :
   forall cfg, validate cfg = None <-> NoDup (map key (claims cfg)).
 Proof. exact validate_accepts_iff. Qed.
@@ -186,18 +187,18 @@ Qed.
 Print Assumptions C14_class_nonvacuous.
 
 (* ---------------- unparseable range strings at configuration level ----------------
-   What the code does today (model variant "defective" = [validate], [build]): a range whose svlan or cvlan
-   string does not parse contributes no claim.  [build], [lookup], [ref_lookup] and [validate] are functions of
-   [claims cfg] only, so such a range is invisible to all of them: it is neither indexed nor rejected. *)
+   BuildMatchIndex: a range whose svlan or cvlan string does not parse contributes no claim.  [build], [lookup],
+   [ref_lookup] and the collision scan [validate] are functions of [claims cfg] only, so such a range is invisible to
+   all of them; it is ValidateMatchIndex = [validate_strict] that turns it into a rejected configuration. *)
 Theorem C14_malformed_range_ignored :
   forall name i sv cv rest, parse_vlan_range sv = None \/ parse_cvlan cv = None ->
   range_claims name i ((sv, cv) :: rest) = range_claims name (S i) rest.
 Proof. exact malformed_range_no_claims. Qed.
 Print Assumptions C14_malformed_range_ignored.
 
-(* ... hence "malformed range strings are rejected" FAILS for today's commit-time validation: a configuration
-   whose only range is svlan "5000" is accepted and has no claim at all (finding
-   ValidateMatchIndex:malformed-range-skipped) *)
+(* ... so the collision scan alone does not reject malformed range strings: a configuration whose only range is
+   svlan "5000" has no claim and no collision.  This was ValidateMatchIndex before /repo 461c9d7 (finding
+   ValidateMatchIndex:malformed-{svlan,cvlan}-skipped, fixed); kept as the reason why [validate_strict] is needed. *)
 Definition bad_cfg : config := [ ([97], [([53;48;48;48], [])]) ]%N.            (* "a": svlan "5000", cvlan "" *)
 Theorem C14_validate_malformed_refuted :
   exists cfg g r, In g cfg /\ In r (snd g) /\ parse_vlan_range (fst r) = None /\
@@ -208,7 +209,7 @@ Proof.
 Qed.
 Print Assumptions C14_validate_malformed_refuted.
 
-(* the repaired validation (variant "repaired", fixes/C14_validate_rejects_malformed.patch) accepts a configuration
+(* ValidateMatchIndex (/repo 461c9d7) accepts a configuration
    iff every svlan / cvlan string of every range parses and no two claims share (S-VLAN, selector) *)
 Theorem C14_strict_accepts_iff :
   forall cfg, validate_strict cfg = VOk <-> all_parse cfg /\ NoDup (map key (claims cfg)).
@@ -223,7 +224,7 @@ Theorem C14_strict_rejects_malformed :
 Proof. exact strict_rejects_malformed. Qed.
 Print Assumptions C14_strict_rejects_malformed.
 
-(* on configurations without such strings nothing changes: same verdict, same reported collision *)
+(* on configurations without such strings it is the collision scan: same verdict, same reported collision *)
 Theorem C14_strict_agrees :
   forall cfg, all_parse cfg -> validate_strict cfg = verdict_of (validate cfg).
 Proof. exact strict_agrees. Qed.
